@@ -436,7 +436,13 @@ func MergeFuncUpdateCgroup(resource ResourceUpdater, mergeCondition MergeConditi
 	klog.V(6).Infof("merge update cgroup %v with merged value[%v], original new[%v], old[%v]",
 		c.Path(), mergedValue, c.value, oldStr)
 	// suppose current value is different
-	return resource, cgroupFileWrite(c.parentDir, c.file, mergedValue)
+	if err = cgroupFileWrite(c.parentDir, c.file, mergedValue); err != nil {
+		return resource, err
+	}
+	// the cache must remember what the file holds now, not the final target
+	merged := resource.Clone().(*CgroupResourceUpdater)
+	merged.value = mergedValue
+	return merged, nil
 }
 
 // MergeConditionIfValueIsLarger returns a merge condition where only do update when the new value is larger.
